@@ -21,7 +21,53 @@ pub struct C20Case {
     pub ops: Vec<Op>,
 }
 
+/// 17-24 stores alive on one thread, each searched once or twice, in a shuffled order
+fn decode_many(src: &mut Source) -> Box<dyn Case> {
+    let n = src.range(17, 24);
+    let mut ops = Vec::new();
+    let plain = plain_letters("en");
+    let words: Vec<String> = (0..4).map(|_| (0..src.range(2, 5)).map(|_| plain[src.below(6)]).collect()).collect();
+    for s in 0..n {
+        ops.push(Op::Create(s + 1, gen_lang(src)));
+        for r in 0..src.range(1, 3) {
+            ops.push(Op::Add(s + 1, s * 10 + r + 1, format!("{} {}", src.pick(&words), src.pick(&words)), src.below(4)));
+        }
+    }
+    let mut order: Vec<usize> = (0..n).collect();
+    shuffle(src, &mut order);
+    for round in 0..2 {
+        for &s in &order {
+            if round == 0 || src.chance(1, 3) {
+                let w: Vec<char> = src.pick(&words).chars().collect();
+                ops.push(Op::Search(s + 1, w[..1 + src.below(w.len())].iter().collect()));
+            }
+        }
+    }
+    Box::new(C20Case { ops })
+}
+
+/// one store with thousands of records and a limit in the thousands ("show all")
+fn decode_show_all(src: &mut Source) -> Box<dyn Case> {
+    let n = src.range(4100, 5200);
+    let plain = plain_letters("en");
+    let words: Vec<String> = (0..3).map(|_| (0..src.range(2, 4)).map(|_| plain[src.below(4)]).collect()).collect();
+    let mut ops = vec![Op::Create(1, gen_lang(src)), Op::Limit(1, src.range(4097, 6000))];
+    for r in 0..n {
+        ops.push(Op::Add(1, r + 1, format!("{} {}", words[0], src.pick(&words)), src.below(4)));
+    }
+    let w: Vec<char> = words[0].chars().collect();
+    ops.push(Op::Search(1, w[..1].iter().collect()));
+    ops.push(Op::Search(1, String::new()));
+    Box::new(C20Case { ops })
+}
+
 pub fn decode(src: &mut Source) -> Box<dyn Case> {
+    if src.chance(1, 60) {
+        return decode_many(src);
+    }
+    if src.chance(1, 3000) {
+        return decode_show_all(src);
+    }
     const IDS: [usize; 3] = [0, 7, 1_000_003];
     let mut live: Vec<Option<&'static str>> = vec![None; 3];
     let mut titles: Vec<Vec<String>> = vec![Vec::new(); 3];
@@ -102,7 +148,7 @@ pub fn decode(src: &mut Source) -> Box<dyn Case> {
                     let l = if src.chance(1, 10) { 65536 } else { src.below(13) };
                     ops.push(Op::Limit(IDS[s], l));
                 }
-                3 => ops.push(Op::Markers(IDS[s], src.pick(&["", "<", "[[", "*", "<em>", "«", "【", "é"]).to_string(), src.pick(&["", ">", "]]", "*", "</em>", "»", "】", "é"]).to_string())),
+                3 => ops.push(Op::Markers(IDS[s], src.pick(&["", "<", "[[", "*", "<em>", "«", "【", "é", "«\u{a0}", ">> ", "\u{1b}[1m", "\t"]).to_string(), src.pick(&["", ">", "]]", "*", "</em>", "»", "】", "é", "\u{a0}»", " <<", "\u{1b}[0m", "\t"]).to_string())),
                 _ => {
                     live[s] = None;
                     ops.push(Op::Destroy(IDS[s]));
@@ -141,7 +187,8 @@ struct Model {
 
 impl Case for C20Case {
     fn describe(&self) -> Value {
-        json!({"ops": self.ops.iter().map(|o| match o {
+        let shown: Vec<&Op> = if self.ops.len() > 200 { self.ops.iter().take(20).chain(self.ops.iter().rev().take(5).collect::<Vec<_>>().into_iter().rev()).collect() } else { self.ops.iter().collect() };
+        json!({"n_ops": self.ops.len(), "ops": shown.into_iter().map(|o| match o {
             Op::Create(s, l) => json!({"create_store": s, "lang": l}),
             Op::Destroy(s) => json!({"destroy_store": s}),
             Op::Add(s, id, t, r) => json!({"add_record": s, "id": id, "title": show(t), "rating": r}),
@@ -228,6 +275,7 @@ impl Case for C20Case {
         ctx.label_if(interleaved, "interleaved-searches");
         ctx.label_if(recreated, "destroy-recreate");
         ctx.label_if(searched.len() >= 2, ">=2-stores-searched");
+        ctx.label_if(searched.len() > 16, ">16-stores-searched");
         if interleaved || recreated {
             ctx.nontrivial();
         }
